@@ -70,7 +70,9 @@ func c12Lines(log []vs.Stamp, stream []byte) []c12Line {
 // c12Cases lists the substitutions for one line.
 func c12Cases(dir string, l c12Line, binary bool) []*wMitm {
 	var out []*wMitm
-	add := func(field, value string) { out = append(out, &wMitm{Dir: dir, Line: l.idx, Field: field, Value: value}) }
+	add := func(field, value string) {
+		out = append(out, &wMitm{Dir: dir, Line: l.idx, Field: field, Value: value})
+	}
 	for _, t := range []string{"XXXX", "", "fail", "FAIL", "EXIT", "SUCC", "DATA", strings.ToLower(l.typ)} {
 		if t != l.typ {
 			add("type", t)
@@ -308,6 +310,10 @@ func init() {
 				cfgs = append(cfgs, wParams{Dir: dir, Tree: "one:R:21000", Timeout: 3, Columns: 80})
 				cfgs = append(cfgs, wParams{Dir: dir, Tree: "dir", Directory: true, Timeout: 3, Columns: 80})
 				cfgs = append(cfgs, wParams{Dir: dir, Tree: "one:E:300", Overwrite: true, DstPre: "c08:longer:7@3", Protocol: 3, Timeout: 3, Quiet: true})
+				// a resumed transfer with the progress display attached: 192 bytes proven equal, 108 to go
+				// (120 ms of latency per message, or the display's 200 ms redraw throttle hides every step but the first)
+				cfgs = append(cfgs, wParams{Dir: dir, Tree: "one:E:300", Overwrite: true, DstPre: "c08:shorter:100@-1", HashStep: 64, Timeout: 3, Columns: 80, LatencyMs: 120})
+				cfgs = append(cfgs, wParams{Dir: dir, Tree: "one:R:21000", Timeout: 3, Columns: 80, LatencyMs: 120})
 				if tier == "thorough" {
 					cfgs = append(cfgs, wParams{Dir: dir, Tree: "small3", Protocol: 2, Timeout: 3, Columns: 80})
 					cfgs = append(cfgs, wParams{Dir: dir, Tree: "small3", Protocol: 1, Timeout: 3, Quiet: true})
